@@ -62,6 +62,15 @@ def expected_from_snapshot(cfg, world, rec, scn_step):
             route.setdefault(key, nid)
     m = model.ApiModel(cfg, _FrozenClock(rec.t0), snapshot_mode=True)
     keys = call_keys(rec.method, args, kwargs)
+    if keys is not None and cfg.stack == "hash":
+        # HashClient places a key by the caller's spelling (str and bytes spellings of one memcached key may
+        # live on different servers - placement is C11/C12's subject): such calls are not judged against a
+        # single map
+        spell = {}
+        for k in keys:
+            spell.setdefault(m.wire(k), set()).add(type(k))
+        if any(len(v) > 1 for v in spell.values()):
+            return model.SKIP
     if keys is not None:
         for k in keys:
             wk = m.wire(k)
